@@ -258,3 +258,42 @@ def run_ops(ezdrive, ops, workdir=None, timeout=600, env=None):
         raise Infra("ezdrive run failed rc=%s: %s" % (r.returncode, r.stderr[-1500:]))
     evs = [json.loads(l) for l in r.stdout.splitlines() if l.strip()]
     return evs, r.stdout
+
+
+def dump_edges(module, cfg_template, consts, path, workers=None, timeout=1800):
+    """TLC explores the instance and writes every transition (one JSON line each, already unquoted) to `path`."""
+    work = scratch("edges")
+    cfg = os.path.join(work, "mc.cfg")
+    write_cfg(cfg, cfg_template, consts, ["ACTION_CONSTRAINT Dump"])
+    md = os.path.join(work, "meta")
+    tlclog = os.path.join(work, "tlc.log")
+    pipe = ("set -o pipefail; timeout %d tlc -noGenerateSpecTE -workers %d -metadir %s -config %s %s 2>&1 | tee >(grep -v '^\"{' > %s) | grep '^\"{' > %s"
+            % (timeout, workers or NCPU, md, cfg, module, tlclog, path))
+    r = subprocess.run(["bash", "-c", pipe], cwd=SPEC, stdout=subprocess.PIPE, stderr=subprocess.STDOUT, text=True)
+    time.sleep(0.2)
+    out = open(tlclog).read() if os.path.exists(tlclog) else ""
+    summ = tlc_summary(out)
+    if summ is None or tlc_errors(out) or summ["left"] != 0:
+        raise Infra("TLC failed on %s: %s\n%s" % (module, tlc_errors(out), out[-1500:]))
+    shutil.rmtree(md, ignore_errors=True)
+    return summ
+
+def replay_file(ezdrive, path, nproc=None, env=None):
+    """Replays a stored edge file with nproc parallel ezdrive processes; returns (cases, fails list)."""
+    work = scratch("rpf")
+    nproc = nproc or NCPU
+    pipe = "split -n r/%d -u --filter='%s replay --dir %s/d.$FILE > %s/out.$FILE 2> %s/err.$FILE' %s x" % (nproc, ezdrive, work, work, work, path)
+    e = dict(os.environ)
+    if env: e.update(env)
+    r = subprocess.run(["bash", "-c", pipe], cwd=work, stdout=subprocess.PIPE, stderr=subprocess.STDOUT, text=True, env=e)
+    fails, cases = [], 0
+    for f in sorted(glob.glob(os.path.join(work, "out.x*"))):
+        ok = False
+        for line in open(f):
+            if not line.strip(): continue
+            j = json.loads(line)
+            if j.get("summary"): cases += j["cases"]; ok = True
+            else: fails.append(j)
+        if not ok: raise Infra("replay process died (%s): %s" % (f, r.stdout[-500:]))
+    shutil.rmtree(work, ignore_errors=True)
+    return cases, fails
